@@ -52,7 +52,6 @@ def rotation(yaw, pitch, roll):
 # convex pieces
 # ---------------------------------------------------------------------------------------------
 def _dedupe_rows(A, b, tol=1e-9):
-    key = np.round(np.hstack([A, b[:, None]]) / tol).astype(np.int64) if False else None
     # qhull triangulates facets: merge coplanar ones (same unit normal and offset up to 1e-9)
     order = np.lexsort(np.hstack([A, b[:, None]]).T[::-1])
     keepA, keepb = [], []
@@ -245,38 +244,54 @@ def linf_separation(P, Q):
 # Euclidean distance bracket between two convex hulls (Frank-Wolfe / Gilbert with simplex refinement)
 # ---------------------------------------------------------------------------------------------
 def _min_norm_simplex(P):
-    """Minimum-norm point of conv(rows of P), |P| <= d+1.  Brute force over faces.  Returns (lam)."""
+    """Minimum-norm point of conv(rows of P), |P| <= d+1, the last row being the newest support point
+    (which always belongs to the optimal face).  Brute force over the faces containing it.  Returns the
+    barycentric weights (or None).  Only a heuristic for the iteration: the bracket returned by
+    gjk_bracket is certified independently of what happens here."""
     n = len(P)
+    last = n - 1
     best = None
     bestn = None
-    for k in range(1, n + 1):
-        for sub in itertools.combinations(range(n), k):
-            Q = P[list(sub)]
-            if k == 1:
+    others = list(range(last))
+    for k in range(0, n):
+        for sub0 in itertools.combinations(others, k):
+            sub = list(sub0) + [last]
+            Q = P[sub]
+            if k == 0:
                 lam = np.array([1.0])
             else:
-                # minimise |sum lam_i q_i|^2, sum lam = 1  (affine hull), via reduced system
-                E = (Q[1:] - Q[0]).T  # d x (k-1)
-                G = E.T @ E
-                try:
-                    mu = np.linalg.solve(G, -E.T @ Q[0])
-                except np.linalg.LinAlgError:
-                    continue
-                lam = np.concatenate([[1 - mu.sum()], mu])
+                E = Q[:-1] - Q[-1]  # k x d
+                G = E @ E.T
+                rhs = -(E @ Q[-1])
+                if k == 1:
+                    if G[0, 0] <= 0:
+                        continue
+                    mu = rhs / G[0, 0]
+                elif k == 2:
+                    det = G[0, 0] * G[1, 1] - G[0, 1] * G[1, 0]
+                    if abs(det) <= 1e-300:
+                        continue
+                    mu = np.array([(rhs[0] * G[1, 1] - rhs[1] * G[0, 1]) / det, (G[0, 0] * rhs[1] - G[1, 0] * rhs[0]) / det])
+                else:
+                    try:
+                        mu = np.linalg.solve(G, rhs)
+                    except np.linalg.LinAlgError:
+                        continue
+                lam = np.concatenate([mu, [1 - mu.sum()]])
                 if lam.min() < -1e-12:
                     continue
             z = lam @ Q
             nz = float(z @ z)
-            if bestn is None or nz < bestn - 1e-18:
+            if bestn is None or nz < bestn:
                 bestn = nz
                 full = np.zeros(n)
-                full[list(sub)] = np.clip(lam, 0.0, None)
+                full[sub] = np.clip(lam, 0.0, None)
                 full /= full.sum()
                 best = full
     return best
 
 
-def gjk_bracket(V1, V2, rel=1e-7, abs_=1e-10, maxit=300):
+def gjk_bracket(V1, V2, rel=1e-7, abs_=1e-8, maxit=80):
     """Certified bracket lo <= dist(conv V1, conv V2) <= hi.
     hi = |x - y| for explicit convex combinations x, y;  lo = support gap along (x - y)/|x - y|:
     min_v w.v - max_u w.u <= w.(x* - y*) <= dist for any unit w.  Both bounds are valid whatever the
